@@ -69,11 +69,8 @@ fn push_num<const N: usize>(q: &mut Vec<u8>) -> usize {
     v
 }
 fn push(q: &mut Vec<u8>, s: &[u8]) {
-    let mut i = 0;
-    while i < s.len() {
-        q.push(s[i]);
-        i += 1;
-    }
+    // memcpy, not a loop: keeps the global unwind bound at the size of the real parser's loops
+    q.extend_from_slice(s);
 }
 fn as_str(q: &Vec<u8>) -> &str {
     // every pushed byte is ASCII
@@ -284,7 +281,7 @@ fn scrape<const K: usize>(via_path: bool, unknown_between: bool) {
 macro_rules! qh {
     ($name:ident, $body:expr) => {
         #[kani::proof]
-        #[kani::unwind(40)]
+        #[kani::unwind(24)]
         #[kani::stub(std::backtrace::Backtrace::capture, crate::backtrace_stub)]
         #[kani::stub(alloc::fmt::format, crate::format_stub)]
         #[kani::stub(std::arch::x86_64::__cpuid_count, zeros)]
